@@ -17,7 +17,9 @@ CONFIG = {
                "without field, method without request / verb, topic shapes, entity shapes, wrong package, empty file, inline-name capture, "
                "self reference, README array form, ext.singleForm, file-level import cycle), then random inputs: 20 % random bytes / ASCII "
                "soup / token soup, 40 % token-level mutations (delete / duplicate / swap / replace / insert / truncate) of valid generated "
-               "files, 20 % mutated semantic cases, 20 % valid generated packages with rules. Each input goes through CompilePackage, "
+               "files, 20 % mutated semantic cases, 20 % valid generated packages with rules (half of them bundles of up to 3 packages with imports "
+               "and same-named types in two packages), ~9 % abstract bundles that must be REJECTED (op `total.neg`: wrong package declaration, enum "
+               "default filter naming no option, non-list-shaped list method; the model answers from the abstract bundle). Each input goes through CompilePackage, "
                "LintFile and LintAll under recover + 30 s timeout (fatal errors are attributed by the engine through per-op flushing). "
                "Result = outcome class (ok | err | err:nopos | err:virtual | err:outside | panic); every positioned error is checked "
                "against the line / column bounds of the source file it names. Non-trivial = every op; distinct by input text.",
@@ -31,6 +33,11 @@ CONFIG = {
         "(Timestamp-typed literals) and `any` attributes have no documented surface form and are not in the matrix",
         "an error 'carries a position inside the offending file' when at least one errpos.Err in the error tree names a source file of the bundle and its "
         "start / end lie within that file's lines (column <= line length + 1); errors positioned in generated .j5s.proto files count as unpositioned",
+        "unpositioned errors are identified by call site: if the load half of CompilePackage (PackageSet.LoadLocalPackage on a fresh set) succeeds, the error "
+        "came from the link half and carries the single signature c07-nopos:link-stage (one recorded finding, members listed there); load-half errors keep a "
+        "narrow signature each",
+        "theorem level: C07_accepts_partial proves acceptance by the converter for a decidable source-level ValidBundle; that the result also LINKS is not "
+        "proved (the full statement AcceptsAndLinks is refuted on the model by the recorded capture witness, C07_accepts_counterexample)",
     ],
 }
 
